@@ -1,5 +1,234 @@
-use crate::common::Ctx;
-pub fn run(_ctx: &Ctx, _replay: Option<&serde_json::Value>) -> i32 {
-    eprintln!("not implemented");
-    2
+//! C16 — numbers keep their exact value through every textual path; literals are correctly rounded.
+
+use crate::alpha::{double_grid, words};
+use crate::common::*;
+use crate::oracle;
+use crate::parse::parse_one;
+use blots_core::ast::{Expr, Spanned, UnaryOp};
+use blots_core::environment::Environment;
+use blots_core::formatter::format_expr;
+use blots_core::functions::{BuiltInFunction, FunctionDef};
+use blots_core::heap::Heap;
+use blots_core::values::{SerializableValue, Value};
+use serde_json::{Value as J, json};
+use std::cell::RefCell;
+use std::rc::Rc;
+
+fn call_builtin(f: BuiltInFunction, heap: &Rc<RefCell<Heap>>, args: Vec<Value>) -> Result<Value, String> {
+    FunctionDef::BuiltIn(f)
+        .call(Value::BuiltIn(f), args, Rc::clone(heap), Rc::new(Environment::new()), 0, "")
+        .map_err(|e| e.message)
+}
+
+/// to_string -> to_number
+fn path_string(x: f64) -> Result<f64, String> {
+    let heap = Rc::new(RefCell::new(Heap::new()));
+    let s = call_builtin(BuiltInFunction::ToString, &heap, vec![Value::Number(x)])?;
+    let n = call_builtin(BuiltInFunction::ToNumber, &heap, vec![s])?;
+    n.as_number().map_err(|e| e.to_string())
+}
+
+/// JSON output -> JSON input
+fn path_json(x: f64) -> Result<f64, String> {
+    let text = serde_json::to_string(&SerializableValue::Number(x).to_json()).map_err(|e| e.to_string())?;
+    let j: J = serde_json::from_str(&text).map_err(|e| format!("{} for {}", e, text))?;
+    match SerializableValue::from_json(&j) {
+        SerializableValue::Number(y) => Ok(y),
+        other => Err(format!("not a number: {:?} (text {})", other, text)),
+    }
+}
+
+/// captured in a closure -> emitted source -> reloaded -> returned
+fn path_closure(x: f64) -> Result<f64, String> {
+    let mut s = Session::new();
+    s.env.insert("c".to_string(), Value::Number(x));
+    if !s.run("f = () => c").is_ok() {
+        return Err("cannot define closure".into());
+    }
+    let v = s.env.get("f").ok_or("f unbound")?;
+    let sv = SerializableValue::from_value(&v, &s.heap.borrow()).map_err(|e| e.to_string())?;
+    let text = serde_json::to_string(&sv.to_json()).map_err(|e| e.to_string())?;
+    let j: J = serde_json::from_str(&text).map_err(|e| e.to_string())?;
+    let mut re = Session::with_inputs(&[("f", j)]);
+    match re.run("inputs.f()") {
+        Outcome::Ok(c) => crate::c15::parse_num_list(&format!("[{}]", c)).and_then(|v| v.first().copied()).ok_or(format!("unexpected result {}", c)),
+        other => Err(format!("{:?} (emitted {})", other, text)),
+    }
+}
+
+/// literal in a program -> formatter -> parser (x >= 0)
+fn path_formatter(x: f64) -> Result<f64, String> {
+    let e = Spanned::dummy(Expr::Number(x));
+    let text = format_expr(&e, None);
+    match parse_one(&text).map(|e| e.node) {
+        Ok(Expr::Number(y)) => Ok(y),
+        Ok(Expr::UnaryOp { op: UnaryOp::Negate, expr }) => match expr.node {
+            Expr::Number(y) => Ok(-y),
+            _ => Err(format!("formatted as {}", text)),
+        },
+        other => Err(format!("formatted as {:?} -> {:?}", text, other.map(|_| "non-number"))),
+    }
+}
+
+fn same(a: f64, b: f64) -> bool {
+    a.to_bits() == b.to_bits()
+}
+
+/// Every string over the literal alphabet that the documented literal grammar accepts.
+fn literal_candidates(max_len: usize) -> Vec<String> {
+    let alphabet = ['0', '1', '5', '9', '.', '_', 'e', 'E', '+', '-'];
+    let re = regex::Regex::new(r"^(?:[+-]?\d+(?:_+\d+)*(?:\.\d+)?(?:[eE][+-]?\d+)?|-?\.\d+(?:[eE][+-]?\d+)?)$").unwrap();
+    words(&alphabet, max_len)
+        .into_iter()
+        .map(|w| w.into_iter().collect::<String>())
+        .filter(|s| re.is_match(s))
+        .collect()
+}
+
+fn radix_literals() -> Vec<String> {
+    let mut v = vec![];
+    let hexd = ['0', '1', '9', 'a', 'F'];
+    for w in words(&hexd, 4).into_iter().filter(|w| !w.is_empty()) {
+        let s: String = w.iter().collect();
+        v.push(format!("0x{}", s));
+        if w.len() >= 2 {
+            v.push(format!("0x{}_{}", &s[..1], &s[1..]));
+        }
+    }
+    for w in words(&['0', '1'], 6).into_iter().filter(|w| !w.is_empty()) {
+        let s: String = w.iter().collect();
+        v.push(format!("0b{}", s));
+        if w.len() >= 3 {
+            v.push(format!("0b{}__{}", &s[..2], &s[2..]));
+        }
+    }
+    for s in [
+        "0x1fffffffffffff", "0x20000000000000", "0x20000000000001", "0x20000000000003", "0x7fffffffffffffff", "0x7ffffffffffffc00", "0x8000000000000000",
+        "0xffffffffffffffff", "0x10000000000000000", "0x7fff_ffff_ffff_fbff", "0x3ff_ffff_ffff_ffff", "-0x10", "+0x10", "-0b101", "+0b1_0",
+        "0b11111111111111111111111111111111111111111111111111111", "0b100000000000000000000000000000000000000000000000000001",
+        "0b111111111111111111111111111111111111111111111111111111111111111", "0b1000000000000000000000000000000000000000000000000000000000000000",
+    ] {
+        v.push(s.to_string());
+    }
+    v
+}
+
+fn long_decimal_literals() -> Vec<String> {
+    [
+        "9007199254740993", "9007199254740992", "9007199254740991", "9223372036854775807", "9223372036854775808", "18446744073709551616",
+        "123456789012345678901234567890", "0.1000000000000000055511151231257827021181583404541015625", "2.2250738585072011e-308",
+        "2.2250738585072012e-308", "4.9406564584124654e-324", "2.4703282292062327e-324", "2.4703282292062328e-324", "1.7976931348623157e308",
+        "1.7976931348623158e308", "1.7976931348623159e308", "1e309", "1e-400", "1_000_000", "1__0", "1_0.5", ".5", ".5e-1", "5e0", "5E+2", "0.30000000000000004",
+        "8.41e21", "1.00000000000000011102230246251565404236316680908203125", "1.00000000000000011102230246251565404236316680908203124",
+        "1.00000000000000011102230246251565404236316680908203126", "100000000000000000000000", "6.02214076e23", "0.000001", "1e23", "8.5e-5", "+5", "+5.5e+1", "-.5",
+    ]
+    .iter()
+    .map(|s| s.to_string())
+    .collect()
+}
+
+/// Parse a literal as a program and return the number it denotes.
+fn literal_bits(lit: &str) -> Result<f64, String> {
+    match eval_fresh(lit) {
+        Outcome::Ok(c) => crate::c15::parse_num_list(&format!("[{}]", c)).and_then(|v| v.first().copied()).ok_or(format!("not a number: {}", c)),
+        other => Err(format!("{:?}", other)),
+    }
+}
+
+pub fn run(ctx: &Ctx, replay: Option<&J>) -> i32 {
+    if let Some(r) = replay {
+        let c = &r["case"];
+        if let Some(l) = c["literal"].as_str() {
+            let got = literal_bits(l);
+            let req = format!("LIT {} {}", got.as_ref().map(|g| format!("{:016x}", g.to_bits())).unwrap_or("ERR".into()), l);
+            let ans = oracle::ask(&[req]).unwrap_or_else(|e| vec![e]);
+            println!("literal {:?} -> {:?}; oracle: {}", l, got, ans[0]);
+            return if ans[0] == "ok" { 0 } else { 1 };
+        }
+        let x = f64::from_bits(u64::from_str_radix(c["bits"].as_str().unwrap_or("0"), 16).unwrap_or(0));
+        println!("x = {:?} ({:016x})", x, x.to_bits());
+        println!("  to_string/to_number: {:?}\n  json: {:?}\n  closure: {:?}\n  formatter: {:?}", path_string(x), path_json(x), path_closure(x), path_formatter(x.abs()));
+        return 1;
+    }
+    let thorough = !ctx.quick();
+    let grid = double_grid(thorough);
+    ctx.set("grid_size", json!(grid.len()));
+    type PathFn = fn(f64) -> Result<f64, String>;
+    let paths: [(&str, PathFn); 4] = [("to_string-to_number", path_string), ("json-output-input", path_json), ("closure-emit-reload", path_closure), ("formatter-parser", path_formatter)];
+    par_for_ctx(ctx, grid.len(), |i| {
+        let x = grid[i];
+        ctx.nontrivial(&format!("{:016x}", x.to_bits()));
+        for (name, f) in &paths {
+            // the closure path is the slowest: thin it in the quick tier
+            if *name == "closure-emit-reload" && !thorough && i % 4 != 0 {
+                continue;
+            }
+            ctx.count(1);
+            let r = catch(|| f(x));
+            let ok = matches!(&r, Ok(Ok(y)) if same(*y, x));
+            ctx.outcome(name);
+            if !ok {
+                ctx.violation(Violation {
+                    kind: format!("path-{}", name),
+                    class: "grid".into(),
+                    input: format!("{:?} ({:016x})", x, x.to_bits()),
+                    expected: format!("{:?} ({:016x})", x, x.to_bits()),
+                    observed: match r {
+                        Ok(Ok(y)) => format!("{:?} ({:016x})", y, y.to_bits()),
+                        Ok(Err(e)) => e,
+                        Err(p) => p,
+                    },
+                    case: json!({"bits": format!("{:016x}", x.to_bits())}),
+                });
+            }
+        }
+    });
+    // ---- literals
+    let mut lits = literal_candidates(if thorough { 7 } else { 5 });
+    lits.extend(radix_literals());
+    lits.extend(long_decimal_literals());
+    ctx.set("literals", json!(lits.len()));
+    let values: Vec<Result<f64, String>> = par_map(&lits, |l| literal_bits(l));
+    let requests: Vec<String> = lits
+        .iter()
+        .zip(values.iter())
+        .map(|(l, v)| format!("LIT {} {}", v.as_ref().map(|g| format!("{:016x}", g.to_bits())).unwrap_or("ERR".into()), l))
+        .collect();
+    match oracle::ask(&requests) {
+        Err(e) => ctx.machinery_error(format!("oracle failed: {}", e)),
+        Ok(answers) => {
+            for ((l, v), a) in lits.iter().zip(values.iter()).zip(answers.iter()) {
+                ctx.count(1);
+                ctx.nontrivial(&format!("lit:{}", l));
+                ctx.outcome(if l.contains("0x") || l.contains("0b") { "radix-literal" } else { "decimal-literal" });
+                if a != "ok" {
+                    ctx.violation(Violation {
+                        kind: "literal-value".into(),
+                        class: if l.contains("0x") || l.contains("0b") { "radix".into() } else { "decimal".into() },
+                        input: l.clone(),
+                        expected: "the nearest double to the literal's exact value".into(),
+                        observed: format!("{:?} -> {}", v, a),
+                        case: json!({"literal": l}),
+                    });
+                }
+            }
+        }
+    }
+    for i in [3usize, grid.len() / 2, grid.len() - 5] {
+        ctx.sample(json!({"x": format!("{:?}", grid[i]), "bits": format!("{:016x}", grid[i].to_bits())}));
+    }
+    ctx.sample(json!({"literals": [lits[lits.len() / 3], lits[lits.len() / 2], "0x7fff_ffff_ffff_fbff", "1_0.5e-1"]}));
+    for (n, _) in &paths {
+        ctx.require_outcome(n, 1000);
+    }
+    ctx.require_outcome("decimal-literal", 1000);
+    ctx.require_outcome("radix-literal", 500);
+    ctx.set("trusted_base", json!(["/verif/lib/oracle.py (exact rational value of a literal; Python int/int division is correctly rounded)"]));
+    finish(
+        ctx,
+        "exploration",
+        "every finite double of the grid N through to_string->to_number, JSON output->input, closure capture->emitted source->reload->call, and formatter->parser, compared by bit pattern; every string of length <= 5/7 over {0 1 5 9 . _ e E + -} that the documented literal grammar accepts, every 0x/0b literal with <= 4/6 digits and underscores, boundary long literals (2^53, 2^63, 2^64 neighbourhoods, subnormal and overflow thresholds, half-way cases), each compared with the nearest double of its exact rational value; distinct = distinct bit patterns / literals",
+        true,
+        None,
+    )
 }
